@@ -57,6 +57,77 @@ func (ctx *specCtx) tableCallee(call *ssa.Call) *ssa.Function {
 	return ft.fns[k]
 }
 
+// treeOf: the node of a constant table (tables.go constTree) that v is, when v is read out of a package-level table
+// that is never written, by keys known under the specialisation (`traitsOf[v.typ].fromInput`).
+func (ctx *specCtx) treeOf(v ssa.Value, depth int) *constTree {
+	if ctx.sp.c == nil || depth > 6 {
+		return nil
+	}
+	switch x := v.(type) {
+	case *ssa.UnOp:
+		if x.Op == token.MUL {
+			return ctx.treeAt(x.X, depth+1)
+		}
+	case *ssa.Field:
+		return ctx.treeOf(x.X, depth+1).field(fieldNameOf(x.X.Type(), x.Field))
+	case *ssa.Index:
+		if k, ok := ctx.intOf(x.Index); ok {
+			ch, _ := ctx.treeOf(x.X, depth+1).index(k)
+			return ch
+		}
+	case *ssa.Lookup:
+		if k, ok := ctx.intOf(x.Index); ok && !x.CommaOk {
+			ch, _ := ctx.treeOf(x.X, depth+1).index(k)
+			return ch
+		}
+	case *ssa.Extract:
+		if lk, ok := x.Tuple.(*ssa.Lookup); ok && x.Index == 0 {
+			if k, ok := ctx.intOf(lk.Index); ok {
+				ch, _ := ctx.treeOf(lk.X, depth+1).index(k)
+				return ch
+			}
+		}
+	}
+	return nil
+}
+
+// treeAt: the node of a constant table that addr points to.
+func (ctx *specCtx) treeAt(addr ssa.Value, depth int) *constTree {
+	if ctx.sp.c == nil || depth > 6 {
+		return nil
+	}
+	switch x := addr.(type) {
+	case *ssa.Global:
+		return ctx.sp.c.constTreeOf(x.Object())
+	case *ssa.IndexAddr:
+		if k, ok := ctx.intOf(x.Index); ok {
+			ch, _ := ctx.treeAt(x.X, depth+1).index(k)
+			return ch
+		}
+	case *ssa.FieldAddr:
+		if f, _ := fieldOfAddr(x); f != nil {
+			return ctx.treeAt(x.X, depth+1).field(f.Name())
+		}
+	case *ssa.Alloc:
+		// a local copy of a table entry: stored once
+		if x.Referrers() == nil {
+			return nil
+		}
+		var stored ssa.Value
+		n := 0
+		for _, r := range *x.Referrers() {
+			if st, ok := r.(*ssa.Store); ok && st.Addr == ssa.Value(x) {
+				stored = st.Val
+				n++
+			}
+		}
+		if n == 1 {
+			return ctx.treeOf(stored, depth+1)
+		}
+	}
+	return nil
+}
+
 // tableHas: v is the "found" component of a comma-ok lookup in such a table by a known key.
 func (ctx *specCtx) tableHas(v ssa.Value) (bool, bool) {
 	ex, ok := v.(*ssa.Extract)
@@ -146,6 +217,13 @@ func (ctx *specCtx) intOf(v ssa.Value) (int64, bool) {
 			return n, true
 		}
 	}
+	if ctx.sp.c != nil {
+		if _, isConst := v.(*ssa.Const); !isConst {
+			if t := ctx.treeOf(v, 0); t != nil && t.kind == 'i' {
+				return t.i, true
+			}
+		}
+	}
 	switch x := v.(type) {
 	case *ssa.Const:
 		if x.Value != nil && x.Value.Kind() == constant.Int {
@@ -186,6 +264,11 @@ func (ctx *specCtx) intOf(v ssa.Value) (int64, bool) {
 }
 
 func (ctx *specCtx) boolOf(v ssa.Value) (bool, bool) {
+	if ctx.sp.c != nil {
+		if t := ctx.treeOf(v, 0); t != nil && t.kind == 'b' {
+			return t.b, true
+		}
+	}
 	switch x := v.(type) {
 	case *ssa.Const:
 		if x.Value != nil && x.Value.Kind() == constant.Bool {
